@@ -379,7 +379,9 @@ Definition stage_name (n : N) : comp := 35 :: match n with N0 => [48] | Npos p =
 Record fstate := {
   fs_fs : fs;
   fs_hnd : list bytes;      (* the caller's slices, as values: the kernel copies what is written *)
-  fs_ctr : N                (* staging names used so far *)
+  fs_ctr : N;               (* staging names used so far *)
+  fs_str : list (option path) (* streams opened with PutStream and kept open: Some = its staging file
+                                 (descriptor open); None = closed (committed / aborted / never opened) *)
 }.
 
 Definition do_sys (f : fs) (s : sysc) (log : list ev) : fs * res errno rv * list ev :=
@@ -404,7 +406,7 @@ Definition fs_put (cfg : fscfg) (st : fstate) (kind : wkind) (k : key) (chunks :
                     we_dest := d; we_kind := kind; we_empty_ok := q_empty_ok cfg;
                     we_exist_fails := q_mkdir_exist_fails cfg |} in
       let '(f1, r, log) := w_run (w_fuel env chunks) env (fs_fs st) (WCreate 0 chunks) [] in
-      ({| fs_fs := f1; fs_hnd := fs_hnd st; fs_ctr := ctr + 1 |}, obs_of_res r, rev log)
+      ({| fs_fs := f1; fs_hnd := fs_hnd st; fs_ctr := ctr + 1; fs_str := fs_str st |}, obs_of_res r, rev log)
   end.
 
 Definition empty_key_guard (cfg : fscfg) (k : key) : bool :=
@@ -439,14 +441,15 @@ Definition fs_has (cfg : fscfg) (f : fs) (k : key) : obs * list ev :=
 
 Definition fs_handle (st : fstate) (h : nat) : option bytes := nth_error (fs_hnd st) h.
 Definition fs_add_handle (st : fstate) (c : bytes) : fstate :=
-  {| fs_fs := fs_fs st; fs_hnd := fs_hnd st ++ [c]; fs_ctr := fs_ctr st |}.
+  {| fs_fs := fs_fs st; fs_hnd := fs_hnd st ++ [c]; fs_ctr := fs_ctr st; fs_str := fs_str st |}.
 
 Definition fs_step (cfg : fscfg) (st : fstate) (o : op) : fstate * obs * list ev :=
   match o with
   | ONew c => (fs_add_handle st c, OUnit, [])
   | OMut h c =>
       match fs_handle st h with
-      | Some old => ({| fs_fs := fs_fs st; fs_hnd := upd (fs_hnd st) h (go_copy old c); fs_ctr := fs_ctr st |}, OUnit, [])
+      | Some old => ({| fs_fs := fs_fs st; fs_hnd := upd (fs_hnd st) h (go_copy old c); fs_ctr := fs_ctr st;
+                        fs_str := fs_str st |}, OUnit, [])
       | None => (st, OBadHandle, [])
       end
   | OPut k h =>
@@ -474,6 +477,42 @@ Definition fs_step (cfg : fscfg) (st : fstate) (o : op) : fstate * obs * list ev
       | Some (Err e, log) => (st, OErr e, log)
       end
   | OHas k => let '(ob, log) := fs_has cfg (fs_fs st) k in (st, ob, log)
+  | OOpen =>
+      (* PutStream: the staging file is created now and stays open *)
+      let sp := stage_path (f_base cfg) (stage_name (fs_ctr st)) in
+      let '(f1, r, log) := do_sys (fs_fs st) (SCreat sp) [] in
+      ({| fs_fs := f1; fs_hnd := fs_hnd st; fs_ctr := fs_ctr st + 1;
+          fs_str := fs_str st ++ [match r with Ok _ => Some sp | Err _ => None end] |},
+       match r with Ok _ => OOk | Err e => OErr e end, rev log)
+  | OWrite sid h =>
+      match nth_error (fs_str st) sid, fs_handle st h with
+      | Some (Some sp), Some c =>
+          let '(f1, r, log) := do_sys (fs_fs st) (SWrite sp c) [] in
+          ({| fs_fs := f1; fs_hnd := fs_hnd st; fs_ctr := fs_ctr st; fs_str := fs_str st |},
+           match r with Ok _ => OOk | Err e => OErr e end, rev log)
+      | Some None, Some _ => (st, OErr EOTHER, [])        (* "file already closed" *)
+      | _, _ => (st, OBadHandle, [])
+      end
+  | OCommit sid k =>
+      match nth_error (fs_str st) sid with
+      | None => (st, OBadHandle, [])
+      | Some None => (st, OErr EOTHER, [])                 (* Close of a closed file *)
+      | Some (Some sp) =>
+          let dest := match k with
+                      | [] => Some None
+                      | _ => match path_for_key cfg k with Some d => Some (Some d) | None => None end
+                      end in
+          match dest with
+          | None => (st, OPanic, [])
+          | Some d =>
+              let env := {| we_base := f_base cfg; we_names := fun i => stage_name (fs_ctr st + N.of_nat i);
+                            we_dest := d; we_kind := WVec; we_empty_ok := q_empty_ok cfg;
+                            we_exist_fails := q_mkdir_exist_fails cfg |} in
+              let '(f1, r, log) := w_run (w_fuel env []) env (fs_fs st) (WClose sp None) [] in
+              ({| fs_fs := f1; fs_hnd := fs_hnd st; fs_ctr := fs_ctr st; fs_str := upd (fs_str st) sid None |},
+               obs_of_res r, rev log)
+          end
+      end
   end.
 
 (* observations and, after every operation, the whole file system *)
@@ -509,7 +548,7 @@ Fixpoint dirs_of (pre : path) (p : path) : fs :=
   end.
 Definition fs_fresh (cfg : fscfg) : fs := fst (fs_init cfg (dirs_of [] (f_base cfg))).
 
-Definition fstate0 (cfg : fscfg) : fstate := {| fs_fs := fs_fresh cfg; fs_hnd := []; fs_ctr := 0 |}.
+Definition fstate0 (cfg : fscfg) : fstate := {| fs_fs := fs_fresh cfg; fs_hnd := []; fs_ctr := 0; fs_str := [] |}.
 
 Definition pinned_cfg (base : path) (sh : shardfn) : fscfg :=
   {| f_base := base; f_shard := sh; f_esc := b32enc; q_no_escape := true; q_empty_ok := true;
